@@ -13,12 +13,13 @@ LEVEL_TEXT = (
     "findings)."
 )
 LEVEL_NOTE = "Not decided: single- vs double-precision accuracy; equality with a fresh interpreter as an observation (needs execution)."
-EXPLANATION = "rules FX-GLOBAL-READ, FX-CACHE-KEY, FX-MEMO, WEAKFORM-MEMO, PRECISION-PIN"
+EXPLANATION = "rules FX-GLOBAL-READ, FX-PARAM-SNAPSHOT, FX-PARAM-FORWARD, FX-CACHE-KEY, FX-MEMO, WEAKFORM-MEMO, PRECISION-PIN"
 ASSUMPTIONS = ["GLOBAL_PARAMETERS is the only mutable module-level configuration object that affects numerical results (DEFAULT_* are read at construction through the same pattern)"]
 
 
 def run(ctx):
     fx.parameter_provenance(ctx)
+    fx.parameter_forwarding(ctx)
     fx.cache_keys(ctx)
     fx.memo_sites(ctx)
     fx.weak_form_memo(ctx)
